@@ -291,6 +291,47 @@ func runScalars(raw json.RawMessage, seed int64, rec *Rec) {
 		}
 		slack := (at - asked) / 1e6 // measured bracket in ms between Deadline() and the header being final
 		rec.Add(E("result", "chars", chars, "slack_ms", slack+1, "present", val != "", "count", count))
+	case "client_init_fail":
+		// a client whose configuration is invalid (unknown send compression): every API of every call kind reports the
+		// configuration error; nothing panics, blocks or reaches the transport
+		var reached atomic.Int64
+		fake := &fakeHTTP{}
+		fake.respond = func(req *http.Request) (*http.Response, error) {
+			reached.Add(1)
+			return nil, errors.New("verif: not sent")
+		}
+		client := connect.NewClient[BV, BV](fake, "http://verif.test/verif.v1.Svc/M",
+			append(clientProtoOpts(s.Proto), connect.WithSendCompression("no-such-algorithm"))...)
+		codes := []int{}
+		note := func(err error) { codes = append(codes, codeOf(err)) }
+		ctx := context.Background()
+		_, err := client.CallUnary(ctx, connect.NewRequest(&BV{}))
+		note(err)
+		cs := client.CallClientStream(ctx)
+		cs.RequestHeader().Set("X-A", "b")
+		note(cs.Send(&BV{}))
+		_, err = cs.CloseAndReceive()
+		note(err)
+		ss, err := client.CallServerStream(ctx, connect.NewRequest(&BV{}))
+		note(err)
+		if ss != nil {
+			ss.Receive()
+			note(ss.Err())
+			_ = ss.ResponseHeader()
+			_ = ss.ResponseTrailer()
+			note(ss.Close())
+		}
+		bs := client.CallBidiStream(ctx)
+		bs.RequestHeader().Set("X-A", "b")
+		note(bs.Send(&BV{}))
+		_, err = bs.Receive()
+		note(err)
+		_ = bs.ResponseHeader()
+		_ = bs.ResponseTrailer()
+		note(bs.CloseRequest())
+		note(bs.CloseResponse())
+		fake.wg.Wait()
+		rec.Add(E("result", "codes", codes, "reached", reached.Load()))
 	case "spec_reuse":
 		// C12: the Spec seen by the calling client's interceptors and by the handler's user code, for a Request that
 		// is fresh, was already sent through another client, or is a handler's incoming request being forwarded
